@@ -1,2 +1,139 @@
-From GVL Require Import NList.
-From GV_mpeg4audio Require Import Bits.
+(* Lemmas about the bit-level view (Bits.v) and the fast wire readers (WireF.v). *)
+From GVL Require Import NList Wire Rtp.
+From GV_mpeg4audio Require Import WireF Bits.
+From Coq Require Import ZifyBool ZifyNat ZifyN.
+Open Scope N_scope.
+
+Lemma nshort_spec {A} (l : list A) : forall n, nshort n l = (nlen l <? n).
+Proof.
+  induction l as [|x t IH]; intros n; cbn [nshort nlen].
+  - destruct (N.eqb_spec n 0); destruct (N.ltb_spec 0 n); cbn; try reflexivity; lia.
+  - destruct (N.eqb_spec n 0) as [->|Hn].
+    + destruct (N.ltb_spec (N.succ (nlen t)) 0); [lia|reflexivity].
+    + rewrite IH. destruct (N.ltb_spec (nlen t) (N.pred n)); destruct (N.ltb_spec (N.succ (nlen t)) n); try reflexivity; lia.
+Qed.
+
+(* the fast readers are the shared ones *)
+Lemma fgetl_getl l : fgetl l = getl l.
+Proof.
+  destruct l as [|n t]; [reflexivity|]. cbn [fgetl getl]. rewrite nshort_spec.
+  destruct (N.ltb_spec (nlen t) n); destruct (N.leb_spec n (nlen t)); try reflexivity; lia.
+Qed.
+
+(* ---- bits_be / val_be ---- *)
+Lemma length_bits_be n v : length (bits_be n v) = n.
+Proof. induction n as [|k IH]; cbn [bits_be length]; [reflexivity|]. now rewrite IH. Qed.
+Lemma nlen_bits_be n v : nlen (bits_be n v) = N.of_nat n.
+Proof. now rewrite nlen_length, length_bits_be. Qed.
+
+Lemma bits_be_0 n : bits_be n 0 = repeat false n.
+Proof. induction n as [|k IH]; cbn [bits_be repeat]; [reflexivity|]. now rewrite N.bits_0, IH. Qed.
+
+Lemma val_be_app acc a b : val_be acc (a ++ b) = val_be (val_be acc a) b.
+Proof. revert acc; induction a as [|x t IH]; intros acc; cbn [app val_be]; [reflexivity|]. apply IH. Qed.
+
+Lemma val_be_zeros n : forall acc, val_be acc (repeat false n) = acc * 2 ^ N.of_nat n.
+Proof.
+  induction n as [|k IH]; intros acc; cbn [repeat val_be].
+  - cbn. lia.
+  - rewrite IH. rewrite Nat2N.inj_succ, N.pow_succ_r'. lia.
+Qed.
+
+Lemma mod_pow2_succ v k : v mod 2 ^ N.succ k = N.b2n (N.testbit v k) * 2 ^ k + v mod 2 ^ k.
+Proof.
+  rewrite N.pow_succ_r', (N.mul_comm 2). rewrite N.mod_mul_r by (try apply N.pow_nonzero; lia).
+  rewrite N.testbit_spec'. lia.
+Qed.
+
+Lemma val_be_bits_be n v : forall acc, val_be acc (bits_be n v) = acc * 2 ^ N.of_nat n + v mod 2 ^ N.of_nat n.
+Proof.
+  induction n as [|k IH]; intros acc; cbn [bits_be val_be].
+  - cbn. rewrite N.mod_1_r. lia.
+  - rewrite IH, Nat2N.inj_succ, mod_pow2_succ, N.pow_succ_r'.
+    destruct (N.testbit v (N.of_nat k)); cbn [N.b2n]; lia.
+Qed.
+
+(* ---- bytes <-> bits ---- *)
+Lemma bytes_bits_app a b : bytes_bits (a ++ b) = bytes_bits a ++ bytes_bits b.
+Proof. unfold bytes_bits. apply flat_map_app. Qed.
+
+Lemma nlen_bytes_bits l : nlen (bytes_bits l) = 8 * nlen l.
+Proof.
+  induction l as [|x t IH]; cbn [bytes_bits flat_map nlen]; [reflexivity|].
+  fold (bytes_bits t). rewrite nlen_app, IH. unfold byte_bits. rewrite nlen_bits_be. lia.
+Qed.
+
+Lemma byte_bits_byte_of8 b7 b6 b5 b4 b3 b2 b1 b0 :
+  byte_bits (byte_of [b7;b6;b5;b4;b3;b2;b1;b0]) = [b7;b6;b5;b4;b3;b2;b1;b0].
+Proof. destruct b7, b6, b5, b4, b3, b2, b1, b0; reflexivity. Qed.
+
+Lemma byte_bits_byte_of_short l : (length l < 8)%nat ->
+  byte_bits (byte_of l) = l ++ repeat false (8 - length l).
+Proof.
+  intros H.
+  destruct l as [|b7 [|b6 [|b5 [|b4 [|b3 [|b2 [|b1 [|b0 t]]]]]]]]; cbn [length] in H; try lia;
+    repeat match goal with b : bool |- _ => destruct b end; reflexivity.
+Qed.
+
+Lemma list8_ind (P : list bool -> Prop) :
+  (forall l, (length l < 8)%nat -> P l) ->
+  (forall b7 b6 b5 b4 b3 b2 b1 b0 t, P t -> P (b7 :: b6 :: b5 :: b4 :: b3 :: b2 :: b1 :: b0 :: t)) ->
+  forall l, P l.
+Proof.
+  intros Hs Hc l. remember (length l) as n eqn:E. revert l E.
+  induction n as [n IH] using lt_wf_ind. intros l E.
+  destruct l as [|b7 [|b6 [|b5 [|b4 [|b3 [|b2 [|b1 [|b0 t]]]]]]]]; try (apply Hs; cbn [length]; lia).
+  apply Hc. apply (IH (length t)); [subst n; cbn [length]; lia|reflexivity].
+Qed.
+
+(* unpacking what was packed gives the bit string back, followed by the zero padding *)
+Lemma bytes_bits_pack bs : exists pad, bytes_bits (pack bs) = bs ++ pad.
+Proof.
+  induction bs as [l Hl | b7 b6 b5 b4 b3 b2 b1 b0 t IH] using list8_ind.
+  - destruct l as [|x t]; [exists []; reflexivity|].
+    assert (E : pack (x :: t) = [byte_of (x :: t)]).
+    { destruct t as [|b6 [|b5 [|b4 [|b3 [|b2 [|b1 [|b0 t]]]]]]]; try reflexivity. cbn [length] in Hl. lia. }
+    rewrite E. unfold bytes_bits; cbn [flat_map]. rewrite app_nil_r, byte_bits_byte_of_short by assumption.
+    eexists. reflexivity.
+  - destruct IH as [pad IH]. exists pad. cbn [pack]. unfold bytes_bits in *; cbn [flat_map].
+    rewrite byte_bits_byte_of8, IH. reflexivity.
+Qed.
+
+Lemma nlen_pack bs : nlen (pack bs) = nlen bs / 8 + (if nlen bs mod 8 =? 0 then 0 else 1).
+Proof.
+  induction bs as [l Hl | b7 b6 b5 b4 b3 b2 b1 b0 t IH] using list8_ind.
+  - assert (Hn : nlen l < 8) by (rewrite nlen_length; lia).
+    rewrite N.div_small, N.mod_small by assumption.
+    destruct l as [|x t]; [reflexivity|].
+    assert (E : pack (x :: t) = [byte_of (x :: t)]).
+    { destruct t as [|b6 [|b5 [|b4 [|b3 [|b2 [|b1 [|b0 t]]]]]]]; try reflexivity. cbn [length] in Hl. lia. }
+    rewrite E. cbn [nlen]. destruct (N.eqb_spec (N.succ (nlen t)) 0); [lia|reflexivity].
+  - cbn [pack]. cbn [nlen]. rewrite IH.
+    replace (N.succ (N.succ (N.succ (N.succ (N.succ (N.succ (N.succ (N.succ (nlen t))))))))) with (nlen t + 1 * 8) by lia.
+    rewrite N.div_add, N.mod_add by lia. lia.
+Qed.
+
+(* ---- read_bits ---- *)
+Lemma read_bits_field n v rest : (0 < n)%nat ->
+  read_bits (bits_be n v ++ rest) (N.of_nat n) = BOk (v mod 2 ^ N.of_nat n) rest.
+Proof.
+  intros Hn. unfold read_bits. rewrite nshort_spec, nlen_app, nlen_bits_be.
+  destruct (N.ltb_spec (N.of_nat n + nlen rest) (N.of_nat n)); [lia|].
+  destruct (N.eqb_spec (N.of_nat n) 0); [lia|].
+  pose proof (nlen_bits_be n v) as E. rewrite <- E.
+  rewrite ntake_app_exact, ndrop_app_exact, val_be_bits_be, E. f_equal.
+Qed.
+
+Lemma read_bits_ok bs n v rest : read_bits bs n = BOk v rest -> n <= nlen bs /\ nlen rest = nlen bs - n.
+Proof.
+  unfold read_bits. rewrite nshort_spec. destruct (N.ltb_spec (nlen bs) n); [discriminate|].
+  destruct (N.eqb_spec n 0) as [->|Hn].
+  - destruct bs; [discriminate|]. intros E; injection E as _ <-. split; lia.
+  - intros E; injection E as _ <-. rewrite nlen_ndrop. split; lia.
+Qed.
+
+Lemma read_bits_nopanic bs n : 0 < n -> read_bits bs n <> BPanic.
+Proof.
+  intros Hn. unfold read_bits. destruct (nshort n bs); [discriminate|].
+  destruct (N.eqb_spec n 0); [lia|discriminate].
+Qed.
